@@ -898,6 +898,95 @@ func ruleWR6(c *Ctx) {
 			c.check(bad == "", fn, fmt.Sprintf("v:scanner-token-copied#%d", nb), c.Pos(cv.Pos()), "the scanner token is copied (or consumed) before the next Scan()", bad+": the next Scan() overwrites it, so a long following line corrupts the held-back line and every command fails with a bogus parse error")
 		}
 	}
+	// (vi) inside the scan loop no failure is decided on the line scanned in this very iteration: whether that line is
+	// the (possibly torn) last one is only known after the next Scan(), so only the held-back line may be judged
+	for _, g := range c.unitOf(rd) {
+		for _, sc := range callsNamed(g, "(*bufio.Scanner).Scan") {
+			hdr := sc.Block()
+			if !isLoopHeader(hdr) {
+				continue
+			}
+			body := loopBlocks(hdr)
+			var tokens []ssa.Value
+			for b := range body {
+				for _, in := range b.Instrs {
+					if cl, ok := in.(*ssa.Call); ok {
+						if n := calleeFullName(&cl.Call); n == "(*bufio.Scanner).Bytes" || n == "(*bufio.Scanner).Text" {
+							tokens = append(tokens, cl)
+						}
+					}
+				}
+			}
+			// derives(v): v is computed in this iteration from the freshly scanned token (not through a loop-carried
+			// variable: header phis and loads of variables are values of earlier iterations)
+			var derives func(v ssa.Value, d int, seen map[ssa.Value]bool) bool
+			derives = func(v ssa.Value, d int, seen map[ssa.Value]bool) bool {
+				if v == nil || d > 20 || seen[v] {
+					return false
+				}
+				seen[v] = true
+				for _, t := range tokens {
+					if v == t {
+						return true
+					}
+				}
+				switch x := v.(type) {
+				case *ssa.Phi:
+					if x.Block() == hdr {
+						return false
+					}
+				case *ssa.UnOp:
+					if x.Op == token.MUL {
+						return false
+					}
+				case *ssa.Parameter, *ssa.FreeVar, *ssa.Const, *ssa.Global:
+					return false
+				}
+				in, ok := v.(ssa.Instruction)
+				if !ok || !body[in.Block()] {
+					return false
+				}
+				for _, op := range in.Operands(nil) {
+					if *op != nil && derives(*op, d+1, seen) {
+						return true
+					}
+				}
+				return false
+			}
+			nr := 0
+			for _, r := range returnsOf(g) {
+				// an exit taken from inside the loop body (not the header's own "no more lines" exit)
+				fromBody := body[r.Block()]
+				for _, p := range r.Block().Preds {
+					if body[p] && p != hdr {
+						fromBody = true
+					}
+				}
+				if !fromBody {
+					continue
+				}
+				// a failing return in the loop body, or reachable only from inside it
+				if !c.definitelyFails(g, r) {
+					continue
+				}
+				nr++
+				bad := ""
+				for _, bf := range directFacts(g) {
+					if !body[bf.E.From] || bf.E.From == hdr {
+						continue
+					}
+					if !mustPassEdges(g, r.Block(), map[edge]bool{bf.E: true}) {
+						continue
+					}
+					if derives(bf.A.X, 0, map[ssa.Value]bool{}) || (bf.A.Y != nil && derives(bf.A.Y, 0, map[ssa.Value]bool{})) {
+						bad = c.Pos(bf.If.Pos())
+					}
+				}
+				c.check(bad == "", fn, fmt.Sprintf("vi:current-line-not-judged#%d", nr), c.Pos(r.Pos()), "failures inside the scan loop concern the held-back line only",
+					"this failure is decided (at "+bad+") on the line scanned in the same iteration: if that line is the torn tail of an interrupted write, readers fail instead of showing the state before it")
+			}
+		}
+	}
 	// (iv) read entry points load once
 	lg := c.F.Anchors["loadGraph"]
 	for _, n := range []string{"RunList", "RunShow"} {
